@@ -439,12 +439,24 @@ func ruleC05StaleMeansReload(c *Ctx) {
 
 func ruleC05ReloadRefreshes(c *Ctx) {
 	u := c.U1
-	c.rule("C05.reload-refreshes", "on the path of keyCache.load that keeps the cached entry and discards the reloaded key: SetRevoked(reloaded.Revoked()) on the cached key, loadedAt = time.Now(), and the entry is written back", 3)
+	c.rule("C05.reload-refreshes", "on the path of keyCache.load that keeps the cached entry and discards the reloaded key: SetRevoked(reloaded.Revoked()) on the cached key, loadedAt = time.Now(), and the entry is written back; keyCache.write stores the entry it is given (keys.Set) on every path", 4)
 	f := u.Method(pkgApp, "keyCache", "load")
 	wr := u.Method(pkgApp, "keyCache", "write")
 	if f == nil || wr == nil {
 		c.unresolved("load", "(*keyCache).load / write")
 		return
+	}
+	// write(meta, e) must store e on every path: load() refreshes loadedAt on a copy and relies on write to persist it
+	{
+		c.FuncsAnalysed[shortName(wr)] = true
+		ok, tr := mustPass(wr.Blocks[0], 0, func(i ssa.Instruction) bool {
+			return isKeysCall(i, "Set") && strings.HasSuffix(accessPath(callOf(i).Args[1]), "P:e")
+		}, nil)
+		if ok {
+			c.ok(shortName(wr)+"/always-sets", u.pos(wr.Pos()), "keys.Set(id, e) on every path")
+		} else {
+			c.bad(shortName(wr)+"/always-sets", u.pos(wr.Pos()), "write can return without storing the entry it was given: a refreshed loadedAt / revoked flag is dropped and the key stays stale (reloaded on every call after the first interval)", u.tracePositions(tr)...)
+		}
 	}
 	c.FuncsAnalysed[shortName(f)] = true
 	// the loader result
